@@ -102,6 +102,35 @@ int main (int argc, char** argv)
   fn ("ci_complex", [] { cd z = complex_in ("z"); out ("r", ci (z)); });
   fn ("ci_real", [] { double r = in ("r"); out ("r", ci (r)); });
 
+#ifndef SYMX_SYMBOLIC
+  // all magnitudes: scaling the operands by a power of two (exact in binary floating point) must scale every
+  // result by the corresponding power, bit for bit, as long as nothing over- or underflows: conversion (degree 1),
+  // product, determinant, norm (degree 2), inverse (degree -1), mixed products (degree 2)
+  fn ("homogeneity_plain", [] {
+    auto same = [] (const std::string& what, const Jones<double>& got, const Jones<double>& base, double factor) {
+      for (unsigned i=0; i<4; i++) { expect_true (what + " (re)", got[i].real () == base[i].real () * factor); expect_true (what + " (im)", got[i].imag () == base[i].imag () * factor); } };
+    BH a (cd (0.75, -1.25), cd (1.5, 0.5), cd (-0.375, 2), cd (1, 1)), b (cd (-1, 0.5), cd (0.25, 0.75), cd (2, -1.5), cd (0.5, 0.125));
+    BU ua (cd (0.75, -1.25), cd (1.5, 0.5), cd (-0.375, 2), cd (1, 1)), ub (cd (-1, 0.5), cd (0.25, 0.75), cd (2, -1.5), cd (0.5, 0.125));
+    QH qa (1.75, 0.5, -0.25, 1.125), qb (0.875, -1.5, 0.75, 0.0625); QU va (1.75, 0.5, -0.25, 1.125), vb (0.875, -1.5, 0.75, 0.0625);
+    Jones<double> J (cd (1, 2), cd (-3, 0.5), cd (0.25, -1), cd (2, 2));
+    for (int e : { -400, -300, -160, -80, 80, 160, 300, 400 }) { double s = std::ldexp (1.0, e), s2 = std::ldexp (1.0, 2*e), si = std::ldexp (1.0, -e); char t[80]; snprintf (t, 80, " at scale 2^%d", e);
+      same (std::string ("convert(s a) = s convert(a), Hermitian biquaternion") + t, convert (s * a), convert (a), s);
+      same (std::string ("convert(a s) = s convert(a), unitary biquaternion") + t, convert (ua * s), convert (ua), s);
+      same (std::string ("convert(s q) = s convert(q), Hermitian quaternion") + t, convert (s * qa), convert (qa), s);
+      same (std::string ("inverse of a scaled Hermitian quaternion") + t, convert (inv (s * qa)), convert (inv (qa)), si);
+      same (std::string ("inverse of a scaled Hermitian biquaternion") + t, convert (inv (s * a)), convert (inv (a)), si);
+      same (std::string ("inverse of a scaled unitary biquaternion") + t, convert (inv (ua * s)), convert (inv (ua)), si);
+      same (std::string ("J * (s q) = s (J * q)") + t, J * (s * qa), J * qa, s);
+      same (std::string ("(s q) * J = s (q * J)") + t, (s * qa) * J, qa * J, s);
+      if (e >= -300 && e <= 300) {
+        same (std::string ("product of scaled Hermitian biquaternions") + t, convert ((s * a) * (s * b)), convert (a * b), s2);
+        same (std::string ("product of scaled unitary biquaternions") + t, convert ((ua * s) * (ub * s)), convert (ua * ub), s2);
+        same (std::string ("product of scaled unitary quaternions") + t, convert ((va * s) * (vb * s)), convert (va * vb), s2);
+        expect_true (std::string ("det of a scaled Hermitian quaternion") + t, det (s * qa) == det (qa) * s2);
+        expect_true (std::string ("det of a scaled unitary quaternion") + t, det (va * s) == det (va) * s2);
+        expect_true (std::string ("norm of a scaled Hermitian quaternion") + t, norm (s * qa) == norm (qa) * s2);
+        cd d1 = det (s * a), d0 = det (a); expect_true (std::string ("det of a scaled Hermitian biquaternion") + t, d1.real () == d0.real () * s2 && d1.imag () == d0.imag () * s2); } } }, 1);
+#endif
   symx::finish ();
   return 0;
 }
